@@ -514,6 +514,61 @@ def alias_sites(P, rep, rule="ALIAS.sites"):
                           witness="feature straddling the 180 meridian")
 
 
+def bezier_periodic_start(P, rep, rule="ALIAS.bezier-start"):
+    """the start value of the spherical closest-point iteration does not depend on the 2*pi sheet of the query"""
+    rep.rule(rule, "BezierCurve::closest_point_on_curve_segment, spherical branch: the difference check_point - p1 that feeds the linear start "
+                   "estimate has its longitude component reduced to (-pi, pi] (minus 2*pi when above pi, plus 2*pi when below -pi) before "
+                   "it is used; everything after the start value uses sin/cos of the longitude difference and is periodic by itself")
+    F = P.func("WorldBuilder::Objects::BezierCurve::closest_point_on_curve_segment")
+    R = lambda n: norm.render(P, n, nocast=True).replace(" ", "")
+    decls = [x for x in F.walk() if x.get("k") == "VarDecl" and x.get("c") and R(x["c"][0]) in ("(check_point-p1)",)]
+    sph = []
+    for x in decls:
+        for a in F.ancestors(x):
+            if a.get("k") == "IfStmt" and "cartesian" in R(a["c"][0]) and len(a["c"]) > 2 and a["c"][2] is not None and any(y is x for y in F.walk(a["c"][2])):
+                sph.append(x)
+    if len(sph) != 1:
+        rep.unknown(rule, "%d spherical `check_point - p1` differences found (1 expected)" % len(sph))
+        return
+    D = sph[0]
+    sym = norm.Sym(P, F, inline_locals=False, hook=pi_hook(P))
+    fixes = {}
+    for x in F.walk():
+        if x.get("k") == "CompoundAssignOperator" and x.get("op") in ("+=", "-="):
+            sub = astq.subscript(x["c"][0])
+            if sub and astq.is_ref_to(sub[0], D["r"]) and sc(sub[1]).get("v") == 0:
+                g = astq.enclosing(F, x, ("IfStmt",))
+                c = sc(g["c"][0]) if g else None
+                if c is None or c.get("k") != "BinaryOperator" or c.get("op") not in ("<", ">", "<=", ">="):
+                    continue
+                cs = astq.subscript(c["c"][0])
+                if not (cs and astq.is_ref_to(cs[0], D["r"]) and sc(cs[1]).get("v") == 0):
+                    continue
+                amount = sym(x["c"][1]) * (1 if x["op"] == "+=" else -1)
+                bound = sym(c["c"][1])
+                fixes[(c["op"][0], sp.simplify(bound), sp.simplify(amount))] = x
+    want = {(">", sp.pi, -2 * sp.pi), ("<", -sp.pi, 2 * sp.pi)}
+    # first use of the difference after its declaration must come after the reductions
+    uses = [x for x in F.walk() if x.get("k") == "DeclRefExpr" and x.get("r") == D["r"]]
+    fix_ids = set()
+    for fx in fixes.values():
+        g = astq.enclosing(F, fx, ("IfStmt",))
+        top = g
+        for a in F.ancestors(g):
+            if a.get("k") == "IfStmt" and any(y is g for y in F.walk(a)) and R(a["c"][0]).startswith("(%s[0]" % D.get("n")):
+                top = a
+        fix_ids |= {y["i"] for y in F.walk(top)}
+    other = [u for u in uses if u["i"] not in fix_ids]
+    ordered = bool(other) and all((u.get("l") or 0) > max((fx.get("l") or 0) for fx in fixes.values()) for u in other) if fixes else False
+    if set(fixes) >= want and ordered:
+        rep.ok(rule, "%s[0] reduced to (-pi, pi] before the start estimate" % D.get("n"), F.nloc(D), F.qn)
+    else:
+        rep.violation(rule, "the spherical start estimate uses the raw longitude difference of %s (reductions found: %s)" % (D.get("n"), sorted((a, str(b), str(c)) for a, b, c in fixes)),
+                      F.nloc(D), F.qn, norm.render(P, D)[:120], "for a curve listed on the other 2*pi sheet than the query the estimate is off by 2*pi; on a two-point "
+                      "curve the iteration then stalls at t = 0 and the trench is not found", key=rule + "|raw",
+                      witness="two-point trench [[-181,-10],[-182,10]] (findings/C08_two_point_trench)")
+
+
 def plume_head(P, rep, rule="EXPR.plumehead"):
     rep.rule(rule, "between min depth and the first cross section the plume is closed by a half-ellipsoid: with a = first semi-major axis, "
                    "b = a sqrt(1 - e^2), c = first depth - min depth, (x', y') the horizontal offset rotated by -theta and z = first depth - depth, "
